@@ -424,6 +424,9 @@ class Eval:
                 nm_ = str(dt_[1]).split(".")[-1].rstrip("_") if isinstance(dt_, tuple) and len(dt_) == 2 else ""
                 if nm_ == "bool":
                     return lift(lambda e: b2e(nzb(e)), x)
+                if nm_ in ("int", "int64", "int32", "int16", "int8", "intp", "uint8", "uint16", "uint32", "uint64", "intc", "longlong"):
+                    # same as .astype(int): exact on booleans / 0-1 entries, truncation (unknown sign) on real weights
+                    return self.t_method(("method", args[0], "astype", (("extref", "int"),), ()))
                 if nm_ not in ("float", "float64", "double"):
                     raise Inconclusive("PW: conversion to dtype %s" % nm_)
             if isinstance(x, (I, PS, MAP, LISTOF, M, V)):
